@@ -464,7 +464,7 @@ func shards(tier string) []string {
 }
 
 func run(c *core.Ctx) {
-	c.Res.Bound = "bind: typedef t at every subset of <= 3 of 11 scopes x 5 spellings (bare, own prefix, foreign prefix, unknown prefix, prefix of a module without t) x 10 reference sites (all sites in one program when all resolve, one program per site otherwise), 2 load orders; chain: 3-level chains, 2^9 set/omit patterns of units/default/pattern x 4 leaf additions for strings, 2^6 for enum, bits, leafref, decimal64, union, identityref bases; errors: 22 unknown/unresolvable/cyclic references, in a module and in a submodule, processed twice"
+	c.Res.Bound = "bind: typedef t at every subset of <= 3 (thorough 4) of 11 scopes x 5 spellings (bare, own prefix, foreign prefix, unknown prefix, prefix of a module without t) x 10 reference sites (all sites in one program when all resolve, one program per site otherwise), 2 load orders; chain: 3-level chains, 2^9 set/omit patterns of units/default/pattern x 4 leaf additions for strings, 2^6 for enum, bits, leafref, decimal64, union, identityref bases; errors: 22 unknown/unresolvable/cyclic references, in a module and in a submodule, processed twice"
 	report := func(caseNo int64, in Input, f *fail) {
 		c.Outcome("FAIL:" + f.fp)
 		c.Fail(caseNo, nil, f.fp, in, f.exp, f.obs)
@@ -475,7 +475,11 @@ func run(c *core.Ctx) {
 		var shard int
 		fmt.Sscanf(parts[1], "%d", &shard)
 		i := 0
-		for _, decl := range subsets(3) {
+		maxDecl := 3
+		if c.Tier == "thorough" {
+			maxDecl = 4
+		}
+		for _, decl := range subsets(maxDecl) {
 			for _, sp := range spellings {
 				i++
 				if (i-1)%bindShards != shard || c.Expired() {
